@@ -25,16 +25,17 @@ BApply(B, o) == {<< <<Append(p[1][1], o), p[1][2]>>, p[2], p[3]>> : p \in B}
 Small(B) == \A p \in B : p[2] \in (0 - MaxCoef)..MaxCoef /\ p[3] \in (0 - MaxCoef)..MaxCoef
 Scalars == {<<0 - 1, 0>>, <<2, 0>>, <<0, 1>>}
 
-VARIABLES live, val, Q, cano, cplx, steps, hist
-vars == <<live, val, Q, cano, cplx, steps, hist>>
+VARIABLES live, val, Q, cano, cplx, steps, hist, c0
+vars == <<live, val, Q, cano, cplx, steps, hist, c0>>
 Init == /\ live = 1..NGens
         /\ val = [h \in Handles |-> IF h \in 1..NGens THEN {<< <<<<>>, h>>, 1, 0 >>} ELSE {}]
         /\ Q = [h \in Handles |-> IF h \in 1..NGens THEN Sector0 ELSE 0]
         /\ cano = [h \in Handles |-> h \in 1..NGens]            \* TTNS.random is canonical
-        /\ cplx = [h \in Handles |-> FALSE] /\ steps = 0 /\ hist = <<>>
+        /\ c0 \in BOOLEAN                                          \* is the first generator already complex (e.g. the result of a real-time step)?
+        /\ cplx = [h \in Handles |-> h = 1 /\ c0] /\ steps = 0 /\ hist = <<>>
 Set(h, v, q, cn, z, ev) ==
   /\ val' = [val EXCEPT ![h] = v] /\ Q' = [Q EXCEPT ![h] = q] /\ cano' = [cano EXCEPT ![h] = cn] /\ cplx' = [cplx EXCEPT ![h] = z]
-  /\ live' = live \cup {h} /\ steps' = steps + 1
+  /\ live' = live \cup {h} /\ steps' = steps + 1 /\ c0' = c0
   /\ hist' = Append(hist, [ev EXCEPT !.post = [h |-> h, val |-> v, Q |-> q, cano |-> cn, cplx |-> z]])
 Ev(a, x, y, r, o, k) == [a |-> a, x |-> x, y |-> y, r |-> r, o |-> o, k |-> k, post |-> <<>>]
 Free == IF Handles \ live = {} THEN Handles ELSE {CHOOSE h \in Handles \ live : \A g \in Handles \ live : h <= g}
@@ -70,6 +71,10 @@ SectorInv == \A h \in live : \A p \in val[h] : MonoCharge(p[1]) = Q[h]
 Frame == [][\A h \in Handles : (h \in live /\ val'[h] # val[h]) => hist'[Len(hist')].r = h]_vars
 ValuePreserving == [][(steps' = steps + 1 /\ hist'[Len(hist')].a \in {"Canonicalise", "CompressLossless", "ToComplexInplace"})
                         => \A h \in live : val'[h] = val[h]]_vars
-EmitLeaf == (steps = Depth) => PrintT(<<"EMIT", ToJson([hist |-> hist])>>)
-EmitLeafSim == (steps = Depth /\ RandomElement(1..50) = 1) => PrintT(<<"EMIT", ToJson([hist |-> hist])>>)
+EmitLeaf == (steps = Depth) => PrintT(<<"EMIT", ToJson([hist |-> hist, c0 |-> c0])>>)
+EmitLeafSim == (steps = Depth /\ RandomElement(1..50) = 1) => PrintT(<<"EMIT", ToJson([hist |-> hist, c0 |-> c0])>>)
+\* "derive b from a, then mutate one of them in place": every such depth-2 history (run with Depth = 2), replayed on every selected tree
+EmitDeriveMutate == (steps = 2 /\ hist[1].a \in {"Copy", "ToComplex", "Scale"} /\ hist[2].a \in {"ScaleInplace", "ToComplexInplace"}
+                     /\ hist[2].x \in {hist[1].x, hist[1].r})
+                    => PrintT(<<"EMIT", ToJson([hist |-> hist, c0 |-> c0])>>)
 =============================================================================
